@@ -13,11 +13,11 @@ import (
 // ScanProgram is tie T3 for C18: a multi-message ReadRows scan with client writes issued from
 // inside the harness's own stream.Send, i.e. exactly while the scan has given up the table lock.
 type ScanProgram struct {
-	Engine string  `json:"engine"`
-	Seed   uint64  `json:"seed"`
-	NRows  int     `json:"nrows"`
-	Cells  int     `json:"cells"`
-	Keys   [][]byte `json:"keys"`
+	Engine string     `json:"engine"`
+	Seed   uint64     `json:"seed"`
+	NRows  int        `json:"nrows"`
+	Cells  int        `json:"cells"`
+	Keys   [][]byte   `json:"keys"`
 	Ranges [][2]Bound `json:"ranges"`
 	// filled in by the run
 	Flushes []ScanFlush `json:"flushes,omitempty"`
